@@ -67,7 +67,6 @@ class Let:
                 try:
                     args[i] = name, Eval(expr).eval
                 except SyntaxError as v:
-                    m, (huh, l, c, src) = v
                     raise ParseError(
                         '<strong>Expression (Python) Syntax error</strong>:'
                         '\n<pre>\n%s\n</pre>\n' % v.args[0],
